@@ -599,6 +599,8 @@ type genCtx struct {
 	noSeed   map[string]bool
 	perType  map[string]int
 	tlbStats map[string]*tlbStat
+	// queued go.tlb.flags lines
+	pendingFlags [][]string
 }
 
 var lenPatterns = [][]byte{
@@ -741,6 +743,8 @@ func (gc *genCtx) genTL() {
 	all := append(append([]regType{}, tlRegistry...), genericTL...)
 	for _, r := range all {
 		gc.genTLType(r, per)
+		gc.emitPendingFlag()
+		gc.emitPendingFlag()
 	}
 	// LiteapiRequestDecoder: every registered request tag x (valid body, truncations, length patterns), unknown tags, short input
 	var tags []uint32
